@@ -10,6 +10,8 @@ and known_findings.txt; the partial theorem excludes exactly that class.
 import SigModel.Model.Checksum
 import SigModel.Lemmas.C18
 import SigModel.Lemmas.C18b
+import SigModel.Model.SegReader
+import SigModel.Lemmas.C18E
 
 namespace SigModel.Props.C18
 open SigModel.Wal (Bytes le32 rd32 crc32)
@@ -97,5 +99,141 @@ example : wfChunks crc32 [[1, 2, 3], [9]] ∧ chunkStart [[1, 2, 3], [9]] 1 = 15
   intro c hc
   simp at hc
   rcases hc with rfl | rfl <;> decide +kernel
+
+
+/-! ## The reader state above the chunk reader (SigModel.SegReader)
+
+`SegmentFileReader` re-uses its buffers and skips the load when its state says "block b is loaded".  The chunk
+reader theorems above say that a damaged chunk is not RETURNED as data; the theorems below say when the reader
+that sits on top of it cannot serve one block's records as another block's.  `load b` is any function telling what
+a load attempt of block `b` does (`loadOf` builds it from `readAt`); the statements hold for every file, every
+damage, every decoder. -/
+section ReaderState
+open SigModel.SegReader
+
+/-- FULL statement: for every load behaviour (every file, every damage) and every sequence of
+`ValidateAndReadBlock` / `IsBlkDictEncoded` / `ReadRecord` calls on a fresh reader, a record read for block `b`
+that returns bytes returns record `i` of the verified contents of block `b`. -/
+def ReaderNeverServesOtherBlock (rb : (Nat → Load) → St → Nat → St × RB) : Prop :=
+  ∀ (load : Nat → Load) (ops : List Op), ServesOnlyRequestedBlock (rb load) load St.init ops
+
+/-- C18.5 the full statement is FALSE for the code as it is: `loadBlockUsingBuffer` reads the chunk into the re-used
+file buffer before the checksum is compared, dictionary words are slices of that buffer, and a failed attempt
+leaves `isBlockLoaded`/`currBlockNum` pointing at the block loaded before.  Load block 0, fail on block 1, ask for
+block 0 again: the load is skipped and the clobbered buffer is served.  (Replayed on the real reader: kernel suite
+`segreader`, known finding `segreader/stale-buffer-served-after-failed-load/dict`.) -/
+theorem reader_never_serves_other_block_counterexample : ¬ ReaderNeverServesOtherBlock readBlock := by
+  intro h
+  let load : Nat → Load := fun b => if b = 1 then .fail (fun _ => [[9]]) else .ok [[1]]
+  have hg := h load [.ld 0, .ld 1, .rd 0 0] 2 0 0 [9] rfl rfl
+  obtain ⟨c, hc, hi⟩ := hg
+  have : c = [[1]] := by
+    have : load 0 = .ok [[1]] := rfl
+    rw [this] at hc; cases hc; rfl
+  subst this
+  simp at hi
+
+/-- C18.5 (partial, guard = `noStaleReturn`: the sequence never asks for the block recorded as loaded after a
+failed attempt on another block — what the search path does: it walks the blocks of a segment once per reader).
+For EVERY load behaviour, buffers clobbered by failed attempts included, every record served for block `b` is a
+record of the verified contents of block `b`.  The statement order of `readBlock` (error check, THEN
+`currBlockNum = blockNum`) is what the proof rests on; it is tied to the source by the fact `readBlock.order`. -/
+theorem reader_never_serves_other_block_partial (load : Nat → Load) (ops : List Op)
+    (hguard : noStaleReturn load St.init false ops = true) :
+    ServesOnlyRequestedBlock (readBlock load) load St.init ops :=
+  Lemmas.C18E.guarded_run load ops St.init false (by intro h; simp [St.init] at h) hguard
+
+/-- C18.5 without a guard on the calls: if failed attempts leave the served buffers alone (zstd blocks whose
+decompression buffer is not exchanged; never true for dictionary blocks), ALL call sequences are safe. -/
+theorem reader_never_serves_other_block (load : Nat → Load) (hkeep : FailKeeps load) (ops : List Op) :
+    ServesOnlyRequestedBlock (readBlock load) load St.init ops :=
+  Lemmas.C18E.run_spec (Lemmas.C18E.readBlock_good hkeep) ops St.init (Lemmas.C18E.inv_init load)
+
+/-- C18.5 with the proposed repair (`isBlockLoaded = false` on a failed load) the FULL statement holds. -/
+theorem reader_never_serves_other_block_fixed : ReaderNeverServesOtherBlock readBlockFixed := by
+  intro load ops
+  exact Lemmas.C18E.run_spec (Lemmas.C18E.readBlockFixed_good load) ops St.init (Lemmas.C18E.inv_init load)
+
+/-- C18.6 why the ORDER inside `readBlock` matters: if the block number is recorded before the error check
+(seeded change), even a reader whose failed attempts leave the buffers alone, on a call sequence that satisfies
+the guard, serves block 0's record as a record of the damaged block 1 (probe, then read — what the filter path
+does for every block). -/
+theorem record_before_check_counterexample :
+    ¬ (∀ (load : Nat → Load), FailKeeps load → ∀ ops : List Op, noStaleReturn load St.init false ops = true →
+        ServesOnlyRequestedBlock (readBlockEarly load) load St.init ops) := by
+  intro h
+  let load : Nat → Load := fun b => if b = 1 then .fail id else .ok [[7]]
+  have hk : FailKeeps load := by
+    intro b cl hb c
+    by_cases h1 : b = 1
+    · subst h1
+      have : load 1 = .fail id := rfl
+      rw [this] at hb; cases hb; rfl
+    · have : load b = .ok [[7]] := by simp [load, h1]
+      rw [this] at hb; cases hb
+  have hg := h load hk [.ld 0, .pr 1, .rd 1 0] (by decide) 2 1 0 [7] rfl rfl
+  obtain ⟨c, hc, _⟩ := hg
+  have : load 1 = .fail id := rfl
+  rw [this] at hc; cases hc
+
+/-- C18.7 a record that `loadOf` hands to the reader state comes out of `decode` applied to bytes that the chunk
+reader returned WITHOUT an error for exactly that block's offset and length (so that C18.2/C18.3 apply to it). -/
+theorem served_record_is_from_verified_chunk (crc : Bytes → Nat) (f : Bytes) (metas : List BlkMeta)
+    (decode : Bytes → Option Contents) (clob : Nat → Contents → Contents) (b i : Nat) (r : Bytes)
+    (h : Genuine (loadOf crc f metas decode clob) b i r) :
+    ∃ m d c, metas[b]? = some m ∧ readAt crc f m.len m.off = (d, false) ∧ decode d = some c ∧ c[i]? = some r := by
+  obtain ⟨c, hc, hi⟩ := h
+  unfold loadOf at hc
+  cases hm : metas[b]? with
+  | none => rw [hm] at hc; simp at hc
+  | some m =>
+    rw [hm] at hc
+    simp only at hc
+    by_cases hz : m.len = 0
+    · simp [hz] at hc
+    · rw [if_neg hz] at hc
+      rcases hr : readAt crc f m.len m.off with ⟨d, e⟩
+      rw [hr] at hc
+      cases e with
+      | true => simp at hc
+      | false =>
+        simp only at hc
+        cases hd : decode d with
+        | none => rw [hd] at hc; simp at hc
+        | some c' =>
+          rw [hd] at hc
+          simp at hc
+          subst hc
+          exact ⟨m, d, c', rfl, hr, hd, hi⟩
+
+/-- C18.8 timestamp reader: as long as the chunk reader never passes an `io.EOF` through (`NoEof`: it does not for
+a truncated chunk, C18.3, modulo a checksum accident), every timestamp served for block `b` is a timestamp of the
+verified contents of block `b`, for every sequence of `GetTimeStampForRecord` calls. -/
+theorem timereader_never_serves_other_block (load : Nat → TLoad) (hne : NoEof load) (ops : List (Nat × Nat)) :
+    TsServesOnlyRequestedBlock load TSt.init ops :=
+  Lemmas.C18E.ts_run load hne ops TSt.init (by intro h; simp [TSt.init] at h)
+
+/-- C18.8 the hypothesis is needed: `readAllTimestampsForBlock` treats `io.EOF` as success without decoding, so a
+chunk reader that reports a cut-short chunk as `(n, io.EOF)` (seeded change) makes the reader serve the previously
+loaded block's timestamps. -/
+theorem timereader_eof_counterexample :
+    ¬ (∀ (load : Nat → TLoad) (ops : List (Nat × Nat)), TsServesOnlyRequestedBlock load TSt.init ops) := by
+  intro h
+  let load : Nat → TLoad := fun b => if b = 1 then .eof else .ok [5]
+  have hg := h load [(0, 0), (1, 0)] 1 1 0 5 rfl rfl
+  obtain ⟨c, hc, _⟩ := hg
+  have : load 1 = .eof := rfl
+  rw [this] at hc; cases hc
+
+/-- non-vacuity of the guard: a sequence over a file with a damaged block 1 that probes and reads the damaged
+block and later comes back to block 0 after another successful load satisfies it -/
+example : noStaleReturn (fun b => if b = 1 then Load.fail (fun _ => [[9]]) else Load.ok [[b]]) St.init false
+    [.ld 0, .pr 1, .rd 1 0, .rd 2 0, .rd 0 0] = true := by decide
+
+/-- … and the guard is not always true: coming straight back to block 0 violates it -/
+example : noStaleReturn (fun b => if b = 1 then Load.fail (fun _ => [[9]]) else Load.ok [[b]]) St.init false
+    [.ld 0, .pr 1, .rd 0 0] = false := by decide
+
+end ReaderState
 
 end SigModel.Props.C18
